@@ -31,7 +31,7 @@ SUBST = ['(', ')', '{', '}', '[', ']', ';', ',', '.', '->', '*', '&', '+', '-', 
          'int', 'char', 'void', 'struct', 'union', 'enum', 'typedef', 'static', 'extern', 'const', 'sizeof', 'return', 'if', 'case',
          '_Alignas', '_Generic', '_Static_assert', 'typeof', '__attribute__', '[[', 'x', 'T', '0', '1.5', "'a'", '"s"', 'goto', 'switch',
          '__builtin_va_arg', '__builtin_offsetof', '__builtin_types_compatible_p', '_Thread_local', 'inline', 'long', 'double', 'while']
-QUICK_SUBST = ['(', ')', '{', '}', '[', ';', ',', '*', '=', 'int', 'struct', 'x', '0', '"s"', '__builtin_va_arg', '[[', 'typeof', ':']
+QUICK_SUBST = ['(', ')', '{', '}', '[', ';', ',', '*', '=', 'int', 'struct', 'x', '0', '"s"', '__builtin_va_arg', '[[', 'typeof', ':', 'enum', 'void', 'double']
 BYTES = [0x00, 0x01, 0x7f, 0x80, 0xc0, 0xe0, 0xf0, 0xff, 0x5c, 0x22, 0x27, 0x0a]
 
 
@@ -65,7 +65,7 @@ def mutants(name, src, quick, small):
         yield 'trunc@tok%d' % i, src[:a]
         yield 'del@tok%d' % i, src[:a] + src[b:]
         yield 'dup@tok%d' % i, src[:b] + b' ' + src[a:b] + src[b:]
-        if not quick or small or len(src) < 600:
+        if not quick or small or len(src) < 420:
             for s in subst:
                 if src[a:b].decode('latin-1') != s:
                     yield 'sub@tok%d:%s' % (i, s), src[:a] + s.encode() + src[b:]
